@@ -799,7 +799,7 @@ def scen_roundtrip(g, n):
             t = hx(g.render(it))
             L.append('insert 0 %s %d' % (t, d)); d += 1
             L.append('delete 0 %s' % t)
-            for p in paths[:4]:
+            for p in paths:
                 L.append('search 0 ' + hx(p))
         out += L + ['end']
     return out
